@@ -6,7 +6,9 @@ Real state (signal.h:38-52 and the `shared_ptr` that owns it):
 * `chain`    — `_chain`, the awaiter chain of the waiting listeners; head = last subscriber (`awaiter::subscribe`
                pushes at the head, `resume_chain` detaches the whole chain with one exchange and walks it)
 * `cur`      — `_cur_val`: null, pointing at the owned copy `_value_storage`, or at the caller's lvalue
-* `stored`   — `_value_storage`
+* `stored`   — `_value_storage` (`none` = disengaged: initially, and after a by-value call whose value construction threw —
+               `optional::emplace` destroys the old value before it constructs the new one, `stepEmitFail`; `cur` may then
+               still be `owned`: a stale pointer, `readNow` = `Out.dead`)
 * `rel`      — coroutine listeners whose handle sits in a `suspend_point` returned by a collector call (or by the
                state destructor) and that have not been resumed yet.  *Flushing* the suspend point = `resume l` for
                each of them.  A callback listener (`connect`) is never here: its `resume()` runs inside the walk.
@@ -16,8 +18,10 @@ Real state (signal.h:38-52 and the `shared_ptr` that owns it):
                for ever".  `left c` = how many more times callback `c` answers `true`.
 
 One `Op` = one call of the public API (or one resumption of one released coroutine), so an operation list is an
-arbitrary history of arrivals, departures, collector calls of each flavour, flushes in any order / at any later
-time, and handle creation / destruction.
+arbitrary history of arrivals, departures, collector calls of each flavour — including by-value calls whose value
+construction throws (`emitFail`: validating constructor in the in-place overload, throwing copy of a const lvalue through
+the same overload, throwing move in the rvalue overload) —, flushes in any order / at any later time, and handle creation /
+destruction.
 
 The chain walk of a collector call / of the state destructor is written twice: in closed form (`stepEmit`, `stepDrop`:
 filters over the detached chain — what the proofs use) and awaiter by awaiter as the code does it (`stepEmitLoop`,
@@ -47,6 +51,7 @@ inductive Out where
   | val (v : Nat)
   | canceled
   | free
+  | dead             -- a reference to the owned copy after a failed `emplace` destroyed it (only outside the `Flushed` contract)
   deriving DecidableEq, Repr, Inhabited
 
 /-- `_cur_val` when it is not null -/
@@ -90,6 +95,8 @@ inductive Op where
   | assign (l : Nat) (b : Bool)       -- `emitter::operator=` on the emitter of listener `l` while `l` is busy elsewhere: it now
                                       -- denotes the shared state (`true`: copy of a connected emitter) or nothing (`false`)
   | emit (byRef : Bool) (v : Nat)     -- collector call: by value / rvalue / emplace (`false`) or lvalue reference (`true`)
+  | emitFail                          -- collector call by value (in-place arguments, rvalue, const lvalue) whose value construction
+                                      -- throws inside `_value_storage.emplace(...)`: the exception propagates to the caller
   | resume (l : Nat)                  -- the suspend point holding `l` is flushed as far as `l`: `l` is resumed
   | wake (l : Nat)                    -- the gated listener `l` finishes its other business and re-awaits
   | addHandle                         -- copy a `signal` / `collector`
@@ -101,6 +108,7 @@ inductive Res where
   | num (n : Nat)       -- number of coroutine handles in the returned suspend point
   | last (b : Bool)     -- dropHandle: was it the last one
   | unit
+  | threw               -- emitFail: the exception of the value's constructor reached the caller
   | bad                 -- outside the precondition
   deriving DecidableEq, Repr
 
@@ -113,11 +121,13 @@ def deref (s : State) : Option Nat :=
   | some Ptr.owned => s.stored
   | some (Ptr.ext v) => some v
 
-/-- `emitter::await_resume` (signal.h:204-217): lock the weak pointer, read through `_cur_val`, else throw -/
+/-- `emitter::await_resume` (signal.h:204-217): lock the weak pointer, read through `_cur_val`, else throw.
+`_cur_val` still pointing at `_value_storage` after a failed `emplace` has reset it (`stepEmitFail`) yields a reference to a
+destroyed object: `Out.dead`. -/
 def readNow (s : State) : Out :=
   if s.handles = 0 then Out.canceled
   else match deref s with
-    | none => Out.canceled
+    | none => if s.cur = some Ptr.owned then Out.dead else Out.canceled
     | some v => Out.val v
 
 /-- `co_await emitter` by coroutine `l` (signal.h:192-201): subscribe if the state is alive, otherwise
@@ -193,6 +203,18 @@ def stepEmit (s : State) (byRef : Bool) (v : Nat) : State × Res :=
               expect := fun l => if l ∈ s.chain then s.expect l ++ [Out.val v] else s.expect l },
      Res.num (corosOf s).length)
 
+/-- A by-value collector call whose value cannot be constructed (signal.h:96-100 in-place arguments — also the route of a
+const lvalue —, 114-118 rvalue): the only statement that runs is `_value_storage.emplace(...)`.  `std::optional::emplace`
+destroys the held value FIRST and then constructs; the constructor throws, so the optional is left disengaged, and the
+exception leaves `operator()` before `_cur_val` is assigned and before `notify_awaiters()` detaches the chain.  Hence:
+nobody is released, nobody is called, nobody leaves the chain, nothing is emitted — and `_cur_val` keeps its old value: null,
+the address of the caller's lvalue of the previous by-reference call, or the address of `_value_storage`, which now holds no
+object (`readNow` = `Out.dead`; nobody reads it under `Flushed`: `c15_failed_emit_stale_pointer_unread`).
+The lvalue-reference overload (signal.h:136-139) constructs nothing and cannot fail. -/
+def stepEmitFail (s : State) : State × Res :=
+  if s.handles = 0 then (s, Res.bad)
+  else ({ s with stored := none }, Res.threw)
+
 /-- what a resumed coroutine does with a value, according to its script -/
 def afterValue (s : State) (l : Nat) : State :=
   match s.script l with
@@ -206,6 +228,8 @@ def stepResume (s : State) (l : Nat) : State × Res :=
   if l ∈ s.rel then
     match readNow s with
     | Out.val v => (afterValue { s with rel := s.rel.erase l, got := upd s.got l (s.got l ++ [Out.val v]) } l, Res.unit)
+    -- `await_resume` returns the (dangling) reference like any other: the coroutine goes on with its script
+    | Out.dead => (afterValue { s with rel := s.rel.erase l, got := upd s.got l (s.got l ++ [Out.dead]) } l, Res.unit)
     | o => ({ s with rel := s.rel.erase l, got := upd s.got l (s.got l ++ [o]) }, Res.unit)
   else (s, Res.bad)
 
@@ -238,6 +262,7 @@ def step (s : State) (op : Op) : State × Res :=
   | Op.connect0 n => stepConnect0 s n
   | Op.assign l b => stepAssign s l b
   | Op.emit r v => stepEmit s r v
+  | Op.emitFail => stepEmitFail s
   | Op.resume l => stepResume s l
   | Op.wake l => stepWake s l
   | Op.addHandle => stepAdd s
@@ -273,6 +298,7 @@ flushed — discarded in a normal thread or `co_await`ed in a coroutine — befo
 the state is destroyed): no released listener is still un-resumed when the value changes. -/
 def needsFlush (s : State) : Op → Bool
   | Op.emit _ _ => true
+  | Op.emitFail => true
   | Op.dropHandle => s.handles == 1
   | _ => false
 
